@@ -824,3 +824,144 @@ def generate_midpoint(repo, gen_dir):
   ch = write_if_changed(os.path.join(gen_dir, "Midpoint.lean"), "\n".join(out) + "\n")
   status["Midpoint"] = ("changed" if ch else "same") if ok else "error: part of the metric normalisation left the translatable subset"
   return status
+
+
+# ---------------------------------------------------------------------------------------------------------------
+# Acquisition formulas (property C05): named expressions of the source are translated into polymorphic Lean definitions
+# over the `Arith` signature (Model/Generated/Acq.lean), so the same generated text runs on Float in the driver's world
+# and is reasoned about over the reals.  Reading: every name is a number (the expressions are elementwise in their array
+# arguments); `obj.attr` is the parameter `attr` (`self.attr` -> `self_attr`); numpy.sqrt/exp/log/fmax/fmin are the Arith
+# operations; `x ** 2` is `x * x`; a module-level numeric constant NAME is `ofQ NAME` of the exact decimal value.
+# An entry is (lean name, file, class, method, what) with what = ("assign", target) - the single assignment to that name
+# anywhere in the method - or ("return",) - the single return statement; `guard` lists statements (normalised text) that
+# must be present in the method for the reading to make sense.
+
+ACQ_SPECS = [
+  ("core_sqrt_var", "libsigopt/compute/predictor.py", "HasPredictor", "compute_core_components", ("assign", "sqrt_var"), []),
+  ("core_z", "libsigopt/compute/predictor.py", "HasPredictor", "compute_core_components", ("assign", "z"),
+   ["cdf_z = norm.cdf(z)", "pdf_z = norm.pdf(z)"]),
+  ("ei_normalized", "libsigopt/compute/expected_improvement.py", "ExpectedImprovement", "_evaluate_at_point_list_normalized", ("return",), []),
+  ("ei_with_penalty", "libsigopt/compute/expected_improvement.py", "ExpectedImprovementWithPenalty", "_evaluate_at_point_list_penalty",
+   ("return",), ["ei = self._evaluate_at_point_list_normalized(core_components)"]),
+  ("aei_adjusted_var", "libsigopt/compute/expected_improvement.py", "AugmentedExpectedImprovement", "_evaluate_penalty", ("assign", "adjusted_var"), []),
+  ("aei_ratio", "libsigopt/compute/expected_improvement.py", "AugmentedExpectedImprovement", "_evaluate_penalty", ("assign", "sqrt_noise_to_signal_ratio"), []),
+  ("aei_penalty", "libsigopt/compute/expected_improvement.py", "AugmentedExpectedImprovement", "_evaluate_penalty", ("assign", "penalty"),
+   ["return PenaltyComponents(penalty, grad_penalty)"]),
+  ("pf_exponential", "libsigopt/compute/probabilistic_failures.py", "ProbabilisticFailures", "compute_failure_components", ("assign", "exponential"), []),
+  ("pf_denominator", "libsigopt/compute/probabilistic_failures.py", "ProbabilisticFailures", "compute_failure_components", ("assign", "denominator"),
+   ["return FailureComponents(exponential, denominator, core_components)"]),
+  ("pf_success", "libsigopt/compute/probabilistic_failures.py", "ProbabilisticFailures", "_compute_probability_of_success", ("return",), []),
+  ("multitask_value", "libsigopt/compute/multitask_acquisition_function.py", "MultitaskAcquisitionFunction", "_evaluate_at_point_list", ("return",),
+   ["af_vals = self.underlying._evaluate_at_point_list(points_to_evaluate)", "task_costs = points_to_evaluate[:, -1]"]),
+]
+
+
+class _ArithExpr:
+  def __init__(self, src, consts):
+    self.src, self.consts, self.params = src, consts, []
+
+  def lit(self, q):
+    q = Fraction(q)
+    if q == 0:
+      return "(0 : α)"
+    if q == 1:
+      return "(1 : α)"
+    s = f"(Arith.ofNat {abs(q.numerator)} : α)" if q.denominator == 1 else f"((Arith.ofNat {abs(q.numerator)} : α) / Arith.ofNat {q.denominator})"
+    return f"(-{s})" if q < 0 else s
+
+  def name(self, nm):
+    if nm not in self.params:
+      self.params.append(nm)
+    return nm
+
+  def expr(self, n):
+    if isinstance(n, ast.Constant) and isinstance(n.value, (int, float)) and not isinstance(n.value, bool):
+      return self.lit(_lit_to_fraction(n, self.src))
+    if isinstance(n, ast.Name):
+      if n.id in self.consts:
+        return self.lit(self.consts[n.id])
+      return self.name(n.id)
+    if isinstance(n, ast.Attribute) and isinstance(n.value, ast.Name):
+      return self.name(("self_" + n.attr) if n.value.id == "self" else n.attr)
+    if isinstance(n, ast.UnaryOp) and isinstance(n.op, ast.USub):
+      return f"(-{self.expr(n.operand)})"
+    if isinstance(n, ast.BinOp):
+      if isinstance(n.op, ast.Pow) and isinstance(n.right, ast.Constant) and n.right.value == 2:
+        a = self.expr(n.left)
+        return f"({a} * {a})"
+      op = {ast.Add: "+", ast.Sub: "-", ast.Mult: "*", ast.Div: "/"}.get(type(n.op))
+      if op is None:
+        raise TranslationError(f"operator {type(n.op).__name__}")
+      return f"({self.expr(n.left)} {op} {self.expr(n.right)})"
+    if isinstance(n, ast.Call) and not n.keywords:
+      fn = ast.unparse(n.func)
+      one = {"numpy.sqrt": "Arith.sqrt", "numpy.exp": "Arith.exp", "numpy.log": "Arith.log"}
+      two = {"numpy.fmax": "Arith.max", "numpy.maximum": "Arith.max", "numpy.fmin": "Arith.min", "numpy.minimum": "Arith.min"}
+      if fn in one and len(n.args) == 1:
+        return f"({one[fn]} {self.expr(n.args[0])})"
+      if fn in two and len(n.args) == 2:
+        return f"({two[fn]} {self.expr(n.args[0])} {self.expr(n.args[1])})"
+      raise TranslationError(f"call {fn}")
+    raise TranslationError(f"expression {type(n).__name__}: {ast.unparse(n)[:60]}")
+
+
+def generate_acq(repo, gen_dir):
+  status = {}
+  out = [
+    "/- GENERATED by harness/pyfun.py from the current libsigopt source (acquisition formulas). Do not edit. -/",
+    "import Model.Arith",
+    "set_option linter.unusedVariables false",
+    "namespace Gen",
+    "variable {α : Type} [Arith α]",
+    "",
+  ]
+  ok = True
+  mods = {}
+  for lean_name, rel, cls_name, meth, what, guard in ACQ_SPECS:
+    key = f"pyfun_acq:{lean_name}"
+    try:
+      path = os.path.join(repo, rel)
+      if path not in mods:
+        try:
+          src, tree, consts, _so, _strs = module_info(path)
+        except (OSError, SyntaxError) as e:
+          raise TranslationError(str(e))
+        mods[path] = (src, tree, _imported_consts(repo, tree, consts))
+      src, tree, consts = mods[path]
+      cls = next((st for st in tree.body if isinstance(st, ast.ClassDef) and st.name == cls_name), None)
+      fn = next((m for m in (cls.body if cls else []) if isinstance(m, ast.FunctionDef) and m.name == meth), None)
+      if fn is None:
+        raise TranslationError(f"{cls_name}.{meth} not found")
+      texts = [ast.unparse(st) for st in ast.walk(fn) if isinstance(st, ast.stmt)]
+      for g in guard:
+        if g not in texts:
+          raise TranslationError(f"statement changed or missing in {meth}: {g}")
+      if what[0] == "assign":
+        hits = [st for st in ast.walk(fn) if isinstance(st, (ast.Assign, ast.AugAssign, ast.AnnAssign))
+                and any(isinstance(t, ast.Name) and t.id == what[1]
+                        for t in ast.walk(st.targets[0] if isinstance(st, ast.Assign) and len(st.targets) == 1 else
+                                          (st.target if not isinstance(st, ast.Assign) else ast.Tuple(elts=st.targets, ctx=ast.Store()))))]
+        hits = [h for h in hits if not (isinstance(h, ast.Assign) and isinstance(h.value, ast.Constant) and h.value.value is None)
+                and not (isinstance(h, ast.Assign) and len(h.targets) > 1 and isinstance(h.value, ast.Constant) and h.value.value is None)]
+        if len(hits) != 1 or not isinstance(hits[0], ast.Assign) or len(hits[0].targets) != 1 or not isinstance(hits[0].targets[0], ast.Name):
+          raise TranslationError(f"{what[1]} is not assigned exactly once by a plain assignment in {meth}")
+        node = hits[0].value
+      else:
+        rets = [st for st in ast.walk(fn) if isinstance(st, ast.Return)]
+        if len(rets) != 1 or rets[0].value is None:
+          raise TranslationError(f"{meth} does not have exactly one return")
+        node = rets[0].value
+      tr = _ArithExpr(src, consts)
+      body = tr.expr(node)
+      params = sorted(tr.params)
+      ptxt = (" (" + " ".join(params) + " : α)") if params else ""
+      out.append(f"-- {rel}: {cls_name}.{meth}: {ast.unparse(node)}")
+      out.append(f"def {lean_name}{ptxt} : α :=\n  {body}\n")
+      status[key] = "ok"
+    except TranslationError as e:
+      ok = False
+      status[key] = f"error: {e}"
+  out.append("end Gen")
+  ch = write_if_changed(os.path.join(gen_dir, "Acq.lean"), "\n".join(out) + "\n")
+  status["Acq"] = ("changed" if ch else "same") if ok else "error: an acquisition formula left the translatable subset"
+  return status
